@@ -17,7 +17,7 @@ RULE = ('cases = (table sizes incl. 0,1,2,254..257,300 and random; protocol vers
         'reached `connected` with at least one table entry.')
 ASSUMPTIONS = ['simulated device implements the firmware TOC protocol (V1 and V2) as documented',
                'platform / link-control requests are never lost (the library sends them without retry)']
-REQUIRED = ['mon.tables_at_connected', 'mon.lookup_entries', 'mon.stale_sessions', 'mon.lossy_retransmissions',
+REQUIRED = ['mon.cached_sessions_with_one_checksum_for_both_tables', 'mon.tables_at_connected', 'mon.lookup_entries', 'mon.stale_sessions', 'mon.lossy_retransmissions',
             'mon.v1_cases', 'mon.over_255', 'mon.cache_reconnects', 'mon.early_param_packets',
             'mon.stale_item_replies_mid_download', 'mon.cache_shared_with_another_firmware',
             'mon.cache_files_in_an_older_format']
@@ -32,11 +32,17 @@ def cases(tier, seed):
     out = []
     k = 0
 
-    def add(nlog, nparam, proto, pol, latin):
+    def add(nlog, nparam, proto, pol, latin, samecrc=False):
         nonlocal k
         k += 1
         out.append({'seed': seed * 100000 + k, 'nlog': nlog, 'nparam': nparam, 'proto': proto, 'policy': pol,
                     'latin': latin, 'sched': rnd.choice(['rtb', 'random', 'random', 'pct'])})
+        if samecrc:
+            out[-1]['samecrc'] = True
+    # both tables announce the same checksum (they share one cache): sizes 0 and small, with the cache in use
+    for (nl, np_) in ((0, 5), (4, 0), (0, 0), (3, 3), (0, rnd.randint(1, 20)), (rnd.randint(1, 20), 0)):
+        for proto in (3, 10):
+            add(nl, np_, proto, 'cachenotify', False, samecrc=True)
     # fixed corpus: boundary sizes x protocol generation x policy
     for n in SIZES:
         for proto in (3, 10):
@@ -64,7 +70,10 @@ def run(desc, ctx):
         prof['proto'] = max(desc['proto'], 0)
     pol = desc['policy']
     other_fw = None
-    if pol == 'cachenotify' and desc['seed'] % 3 == 0:
+    if desc.get('samecrc'):
+        prof['param_crc'] = prof['log_crc']
+        ctx.count('mon.cached_sessions_with_one_checksum_for_both_tables')
+    if pol == 'cachenotify' and desc['seed'] % 3 == 0 and not desc.get('samecrc'):
         # the cache already holds the tables of ANOTHER firmware whose checksums end with the same hex digits as the
         # (short, leading-zero) checksums of the device under test
         prof['log_crc'] = rnd.choice((0, 0x13C7, rnd.randrange(1, 0x10000), rnd.randrange(1, 0x1000000)))
